@@ -4,6 +4,7 @@ OUT=$1; WT=$2; ID=$(basename $OUT)
 cd $WT && git checkout -q -- . && git apply --check $OUT/patch.diff || { echo "$ID: patch does not apply"; exit 1; }
 DEMO_CMD=$(grep -m1 -E "g\+\+ .*demo" $OUT/README.txt | sed 's/^[^g]*//; s/`//g')
 case "$DEMO_CMD" in *./demo*) ;; *) [ -n "$DEMO_CMD" ] && DEMO_CMD="$DEMO_CMD && ./demo" ;; esac
+nice -n 5 ninja -C $WT/_build -j8 opmcommon > /dev/null 2>&1      # library from the clean sources
 [ -z "$DEMO_CMD" ] && DEMO_CMD="g++ -std=c++17 -I$WT -I$WT/_build demo.cpp -o demo && ./demo"
 ( cd $OUT && eval "$DEMO_CMD" > clean_run.log 2>&1; echo "clean_exit=$?" > confirm.txt )
 git apply $OUT/patch.diff
